@@ -20,14 +20,9 @@ func vIsNine(v int64) bool {
 	return uint64(v-42069) <= 16 && (v-42069)%2 == 0
 }
 
-// vWarmup: the native zzverif log is opened by the first draw; entries without other draws
-// start with this one so that the native trace is complete.
-func vWarmup() { _ = zzverif.Bool("warmup") }
-
 // H_C21_typeNumbers: the nine message types are 42069, 42071, ..., 42085 in protocol order, all
 // odd and pairwise distinct.  Bounds: none (constants).
 func H_C21_typeNumbers() {
-	vWarmup()
 	for i := 0; i < 9; i++ {
 		zzverif.Assert(int(vNine[i]) == 42069+2*i, "C21.type_number")
 		zzverif.Assert(vNine[i]%2 == 1, "C21.type_odd")
@@ -43,7 +38,6 @@ func H_C21_typeNumbers() {
 // characters (what the CLN side slices off with Payload[:4]) and parses back to the same type
 // without error.  Bounds: none (constants; strconv runs concretely).
 func H_C21_roundTripNine() {
-	vWarmup()
 	want := [9]string{"a455", "a457", "a459", "a45b", "a45d", "a45f", "a461", "a463", "a465"}
 	for i := 0; i < 9; i++ {
 		h := MessageTypeToHexString(vNine[i])
@@ -80,9 +74,9 @@ func vHexDigit(c byte) (d uint16, ok uint16) {
 	return d, isDec | isAl
 }
 
-// vParseHex is the harness' own statement of strconv.ParseInt(s, 16, 64) for len(s) <= 6:
+// vParseHex is the harness' own statement of strconv.ParseInt(string(s), 16, 64) for short inputs:
 // optional sign, then at least one hex digit (either case), nothing else (no 0x, no '_').
-func vParseHex(s string) (v int64, ok bool) {
+func vParseHex(s []byte) (v int64, ok bool) {
 	n := len(s)
 	if n == 0 {
 		return 0, false
@@ -108,28 +102,30 @@ func vParseHex(s string) (v int64, ok bool) {
 	return v, allOk == 1
 }
 
-// vAssumeASCII restricts a drawn string to 7-bit characters (SMT strings range over code points,
-// Go strings over bytes; message type strings come from hex/JSON text).
-func vAssumeASCII(s string) {
-	for i := 0; i < len(s); i++ {
-		zzverif.Assume(s[i:i+1] <= "\x7f")
+// vDrawBytes draws a byte string of every length min..max (the length is a concrete choice, every
+// byte an arbitrary 8-bit value).
+func vDrawBytes(name string, min, max int) []byte {
+	n := min + zzverif.Choice(name+"_len", max-min+1)
+	b := make([]byte, n)
+	for i := 0; i < n; i++ {
+		b[i] = zzverif.U8(name + "_ch")
 	}
+	return b
 }
 
-// H_C21_parseExact: for every string s of at most 6 ASCII characters,
+// vParseExact: for every string s of minLen..maxLen bytes (arbitrary byte values),
 // PeerswapCustomMessageType(s) returns a nil error exactly when s parses as a base-16 integer
 // (strconv.ParseInt syntax: optional sign, hex digits of either case, leading zeros allowed) to
 // one of the nine numbers, and then returns that number; a parsable other number gives the
 // errors.Is-detectable ErrNotPeerswapCustomMessage; an unparsable string gives a wrapped parse
 // error that is not ErrNotPeerswapCustomMessage.
-// Bounds: len(s) <= 6, ASCII.  strconv.ParseInt = engine model (exact up to 8 digits).
-func H_C21_parseExact() {
-	s := zzverif.Str("msg_type")
-	zzverif.Unwind(16)
-	zzverif.Assume(len(s) <= 6)
-	vAssumeASCII(s)
+// strconv.ParseInt = engine model (exact up to 8 digits); the oracle vParseHex is written
+// independently (range arithmetic vs. the model's digit table).
+func vParseExact(minLen, maxLen int) {
+	b := vDrawBytes("msg_type", minLen, maxLen)
+	s := string(b)
 	t, err := PeerswapCustomMessageType(s)
-	v, ok := vParseHex(s)
+	v, ok := vParseHex(b)
 	zzverif.Assert((err == nil) == (ok && vIsNine(v)), "C21.parse_accepts_exactly_nine")
 	if err == nil {
 		zzverif.Assert(int64(t) == v, "C21.parse_returns_number")
@@ -140,3 +136,12 @@ func H_C21_parseExact() {
 		zzverif.Assert(isNot || errors.Unwrap(err) != nil, "C21.parse_error_wraps_strconv")
 	}
 }
+
+// H_C21_parseExact_len0to4: vParseExact for all strings of 0..4 bytes.
+func H_C21_parseExact_len0to4() { vParseExact(0, 4) }
+
+// H_C21_parseExact_len5: vParseExact for all strings of exactly 5 bytes ("+a455", "0a455", ...).
+func H_C21_parseExact_len5() { vParseExact(5, 5) }
+
+// H_C21_parseExact_len6: vParseExact for all strings of exactly 6 bytes ("+0a455", "00A455", ...).
+func H_C21_parseExact_len6() { vParseExact(6, 6) }
